@@ -178,7 +178,7 @@ def extra(uni, tier, seed):
     from pyvc.runner import Extra
     from realise import C21 as R
     out, n_ok, n_ref = [], 0, 0
-    for cid, verdict, probs, meta in R.family():
+    for cid, verdict, probs, meta in R.family(tier == "thorough"):
         if verdict == "ok":
             n_ok += 1
         elif verdict == "refused":
@@ -193,7 +193,8 @@ def extra(uni, tier, seed):
                         "observed": probs[:6]}))
     out.append(Extra("bounded#call-matches-stub", n_ok >= 10,
                      f"{n_ok} kernel metadata agree ({n_ref} refused)",
-                     kind="bounded run-time contract: 26 kernel metadata",
+                     kind="bounded run-time contract: 26 kernel metadata "
+                          "(quick), 103 (thorough)",
                      count=n_ok, bounded=True, undecided=n_ok < 10))
     return out
 
